@@ -20,9 +20,10 @@ impl Universe {
         let mut pool: Vec<&'static str> = NAMES.to_vec();
         rng.shuffle(&mut pool);
         // make prefix-related siblings likely
-        let (n, depth) = match rng.below(4) {
-            0 => (4, 2),
-            1 => (2, 3),
+        let (n, depth) = match rng.below(8) {
+            0 | 1 => (4, 2),
+            2 | 3 => (2, 3),
+            4 => (2, 4), // deeper paths now and then (30 paths)
             _ => (3, 3),
         };
         let mut names: Vec<&'static str> = pool[..n].to_vec();
